@@ -57,6 +57,49 @@ def strategy(tier):
     return _case()
 
 
+# three cells per axis, non-uniform but with equal end cells (so that periodic axes are outside the K2 class)
+ENUM_FACES = dict(x=[0.0, 0.3, 0.7, 1.0], r=[0.5, 0.8, 1.2, 1.5], thc=[0.0, 0.8, 1.7, 2.5], ths=[0.4, 0.9, 1.5, 2.0], ph=[0.0, 1.0, 1.5, 2.5])
+EXHAUSTIVE_NOTE = ("every combination of boundary kind per side {D,N,R}^2 or periodic flag {lo,hi,both} per axis (periodic not on radial axes), "
+                   "across all axes, on all 9 grid classes (fixed 3-cell-per-axis non-uniform grid with equal end cells, fixed face-wise varying coefficients)")
+
+
+def _side(kind, shape, side, seed):
+    v = lambda lo, hi, k: gen.expand('generic', seed + k, shape, lo, hi)
+    if kind == 'D':
+        a, b, c = np.zeros(shape), v(0.5, 2.0, 1), v(-1, 1, 0)
+    elif kind == 'N':
+        a, b, c = v(0.5, 2.0, 1) * (1.0 if side == 'hi' else -1.0), np.zeros(shape), v(-1, 1, 0)
+    else:
+        a, b, c = v(0.3, 2.0, 1) * (1.0 if side == 'hi' else -1.0), v(0.3, 2.0, 2), v(-1, 1, 0)
+    return dict(kind=kind, a=a.tolist(), b=b.tolist(), c=c.tolist())
+
+
+def enumerate_cases(tier):
+    import itertools
+    from ..common import face_shapes
+    nonper = [(a, b) for a in 'DNR' for b in 'DNR']
+    for name in GRIDS:
+        kinds = AXES[name]
+        faces = [ENUM_FACES[k] for k in kinds]
+        d = dims_of(faces)
+        opts = []
+        for k in kinds:
+            o = [('none', lo, hi) for lo, hi in nonper]
+            if k != 'r':
+                o += [(p, 'N', 'N') for p in ('lo', 'hi', 'both')]
+            opts.append(o)
+        for n, combo in enumerate(itertools.product(*opts)):
+            bc = []
+            for ax, (per, lo, hi) in enumerate(combo):
+                shp = bc_shape(d, ax)
+                bc.append(dict(periodic=per, lo=_side(lo, shp, 'lo', 10 * ax + 1), hi=_side(hi, shp, 'hi', 10 * ax + 5)))
+            P = dict(name=name, faces=faces, bc=bc, init=gen.expand('generic', 3, d).tolist(),
+                     D=[np.full(sh, 0.7).tolist() for sh in face_shapes(d)], u=[gen.expand('generic', 20 + i, sh).tolist() for i, sh in enumerate(face_shapes(d))],
+                     scheme=('none', 'central', 'upwind')[n % 3], FL='SUPERBEE', alpha=1.0, beta=None, gamma=None, dt=0.3)
+            yield dict(grid=dict(name=name, faces=faces, spacing=['random'] * len(kinds)), P=P, rhs_seed=5, lam=(-1.0, 1e6, 1e-6, -3.7)[n % 4],
+                       lam_ax=n % len(kinds), lam_side=('lo', 'hi')[(n // 2) % 2], enumerated=True)
+
+
 def budget(tier):
     return 2500 if tier == "quick" else 25000
 
